@@ -515,6 +515,9 @@ type parseEvent struct {
 	Outs []parseOut `json:"outs"`
 	Part []int      `json:"part"`
 	Err  bool       `json:"finalerr"` // multi: the stream ended with an error after the listed alignments
+	// multi, through the channel interface: number of alignments delivered, and whether an error was left in the channel
+	Chn   *int `json:"chn,omitempty"`
+	ChErr bool `json:"cherr"`
 }
 
 type eofCounter struct {
@@ -601,6 +604,16 @@ func doParse(c parseCase) (ev parseEvent) {
 		if err != nil {
 			ev.Msg = err.Error()
 		}
+		// the same bytes through the channel interface the commands use (ParseMultiple): as many alignments, and the same
+		// final verdict (an error after the listed alignments, or a clean end of stream)
+		ach := &align.AlignChannel{Achan: make(chan align.Alignment, 15)}
+		p2 := phylip.NewParser(bytes.NewReader(i2b(c.Bytes)), c.Strict).IgnoreIdentical(c.Pol).Alphabet(c.Alpha)
+		go p2.ParseMultiple(ach)
+		n := 0
+		for range ach.Achan {
+			n++
+		}
+		ev.Chn, ev.ChErr = &n, ach.Err != nil
 		return
 	case "nexus":
 		a, err = nexus.NewParser(rd).IgnoreIdentical(c.Pol).Alphabet(c.Alpha).Parse()
